@@ -1,6 +1,8 @@
 (* Proofs about the framing model, part 3: io.ReadFull over arbitrary chunkings, Decoder.Decode
    on encoded streams (round trip, cuts) and on arbitrary bytes (allocation bound). *)
-From CV Require Import Frame.Frame Frame.FrameProofs Frame.FrameSafe.
+From CV Require Import Frame.Frame.
+From CV Require Import Frame.FrameProofs.
+From CV Require Import Frame.FrameSafe.
 From Coq Require Import ZifyBool ZifyNat.
 Ltac Zify.zify_post_hook ::= Z.div_mod_to_equations.
 Open Scope Z_scope.
